@@ -97,6 +97,38 @@ def integrate_region(simplices, a):
     return float(numpy.einsum('s,q,sq->', det, wts, vals))
 
 
+def moments(coords, weights, monos):
+    """sum_p w_p x_p^a for all monomials a at once"""
+    A = numpy.asarray(monos, int).reshape(len(monos), -1)
+    coords = numpy.asarray(coords, float)
+    if len(coords) == 0:
+        return numpy.zeros(len(A))
+    vals = numpy.ones((len(coords), len(A)))
+    for d in range(A.shape[1]):
+        kmax = int(A[:, d].max()) if len(A) else 0
+        P = numpy.ones((len(coords), kmax + 1))
+        for k in range(1, kmax + 1):
+            P[:, k] = P[:, k - 1] * coords[:, d]       # repeated multiplication: no pow(), exact for k <= 1
+        vals *= P[:, A[:, d]]
+    return numpy.asarray(weights, float) @ vals
+
+
+def region_moments(simplices, monos):
+    """Duffy oracle for all monomials at once (one rule of the maximal total degree)"""
+    simplices = numpy.asarray(simplices, float)
+    A = numpy.asarray(monos, int).reshape(len(monos), -1)
+    if len(simplices) == 0:
+        return numpy.zeros(len(A))
+    nd = simplices.shape[2]
+    pts, wts = duffy(nd, int(A.sum(1).max()) if len(A) else 0)
+    v0 = simplices[:, 0]
+    E = simplices[:, 1:] - v0[:, None]
+    det = numpy.abs(numpy.linalg.det(E)) if nd else numpy.ones(len(simplices))
+    x = (v0[:, None, :] + numpy.einsum('qk,skc->sqc', pts, E)).reshape(-1, nd)
+    w = (det[:, None] * wts[None, :]).ravel()
+    return moments(x, w, A)
+
+
 def in_region(simplices, pts, tol=1e-10):
     """All pts lie in the union of the given simplices (own barycentric test)."""
     simplices = numpy.asarray(simplices, float)
@@ -304,16 +336,15 @@ def check_plain(fdims, degree, judge, res):
     if not tab_ok:
         return 0
     coords, weights = numpy.asarray(pts.coords), numpy.asarray(pts.weights)
-    n = 0
-    for a in exact_set(fdims, degs):
-        obs = float(weights @ numpy.prod(coords**numpy.array(a), axis=1))
-        judge.close('gauss exactness (closed form)', obs, exact_monomial(fdims, a), f'{name} gauss{arg} monomial {a}')
-        n += 1
+    mset = exact_set(fdims, degs)
+    n = len(mset)
+    for a, o in zip(mset, moments(coords, weights, mset)):
+        judge.close('gauss exactness (closed form)', float(o), exact_monomial(fdims, a), f'{name} gauss{arg} monomial {a}')
     res.count('B/triples', n)
     res.count('B/triples_beyond_documented' if not doc_ok else 'B/triples_documented', n)
     res.add('B/ref_degree', f'{name}:{arg}')
     judge.true('points inside element', bary_min(fdims, coords) >= -1e-12, f'{name} gauss{arg}: min barycentric {bary_min(fdims, coords):.3e}')
-    judge.true('points inside element', all(ref.inside(p, 1e-12) for p in coords), f'{name} gauss{arg}: ref.inside false for a quadrature point')
+    judge.true('points inside element', all(ref.inside(p, 1e-12) for p in coords[::max(1, len(coords) // 12)]), f'{name} gauss{arg}: ref.inside false for a quadrature point')
     judge.close('weights sum to volume', float(weights.sum()), exact_monomial(fdims, (0,) * sum(fdims)), f'{name} gauss{arg} weight sum')
     # sharpness (information only): one degree beyond the rule's order some monomial is not integrated exactly
     sharp = 0
@@ -370,12 +401,12 @@ def check_region(ref, degree, judge, res, label, maxmono=None, rng=None):
     if maxmono and len(monos) > maxmono:
         keep = [0] + sorted(rng.choice(numpy.arange(1, len(monos)), size=maxmono - 1, replace=False).tolist())
         monos = [monos[i] for i in keep]
-    for a in monos:
-        obs = float(weights @ numpy.prod(coords**numpy.array(a), axis=1)) if len(weights) else 0.
-        judge.close('gauss exactness (region oracle)', obs, integrate_region(region, a), f'{label} gauss{degree} monomial {a}')
+    obs, ref_ = moments(coords, weights, monos), region_moments(region, monos)
+    for a, o, r in zip(monos, obs, ref_):
+        judge.close('gauss exactness (region oracle)', float(o), float(r), f'{label} gauss{degree} monomial {a}')
     res.count('B/region_triples', len(monos))
     judge.true('points inside element', in_region(region, coords), f'{label} gauss{degree}: quadrature point outside the region of the reference')
-    judge.true('points inside element', all(ref.inside(p, 1e-10) for p in coords), f'{label} gauss{degree}: ref.inside false for a quadrature point')
+    judge.true('points inside element', all(ref.inside(p, 1e-10) for p in coords[::max(1, len(coords) // 6)]), f'{label} gauss{degree}: ref.inside false for a quadrature point')
     return pts
 
 
@@ -423,11 +454,10 @@ def check_children(fdims, degree, judge, res, subsets, rng):
         region = numpy.asarray(ctrans.apply(creg.reshape(-1, nd))).reshape(creg.shape)
         judge.true('points inside element', bary_min(fdims, coords) >= -1e-12, f'{name} child {ichild} gauss{degree}: point outside parent')
         judge.close('weights sum to volume', float(weights.sum()), integrate_region(region, (0,) * nd), f'{name} child {ichild} gauss{degree} weight sum')
-        for a in monos:
-            obs = float(weights @ numpy.prod(coords**numpy.array(a), axis=1))
-            # a monomial of per-factor degree <= p stays in the exact set under the child maps (axis-aligned per factor)
-            judge.close('child pull-back', obs, integrate_region(region, a), f'{name} child {ichild} gauss{degree} monomial {a}')
-            total[a] = total.get(a, 0.) + obs
+        # a monomial of per-factor degree <= p stays in the exact set under the child maps (axis-aligned per factor)
+        for a, o, r in zip(monos, moments(coords, weights, monos), region_moments(region, monos)):
+            judge.close('child pull-back', float(o), float(r), f'{name} child {ichild} gauss{degree} monomial {a}')
+            total[a] = total.get(a, 0.) + float(o)
         per_child.append(region)
         res.count('B/child_triples', len(monos))
     for a in monos:
@@ -518,8 +548,9 @@ def check_trim(fdims, coef, maxrefine, ndivisions, degrees, judge, res, rng):
             if linear and len(coords):
                 phi = sign * (coef['c0'] + coords @ numpy.array(coef['c']))
                 judge.true('points on the kept side of the level set', phi.min() >= -slack - 1e-12, f'{label} gauss{degree}: min levelset value at a point {phi.min():.3e} < -{slack:.3e}')
-            for a in exact_set(fdims, (degree,) * len(fdims)) if nd < 3 else monomials_total(nd, degree):
-                sums[a] = sums.get(a, 0.) + (float(weights @ numpy.prod(coords**numpy.array(a), axis=1)) if len(weights) else 0.)
+            mset = exact_set(fdims, (degree,) * len(fdims)) if nd < 3 else monomials_total(nd, degree)
+            for a, o in zip(mset, moments(coords, weights, mset)):
+                sums[a] = sums.get(a, 0.) + float(o)
         # pieces of a trimmed tensor cell are simplices (mosaic) or tensor sub-cells; the total-degree set is safe for both,
         # the per-direction set only where no mosaic is involved
         safe = monomials_total(nd, degree) if 'MosaicReference' in kinds else (exact_set(fdims, (degree,) * len(fdims)) if nd < 3 else monomials_total(nd, degree))
